@@ -22,6 +22,8 @@ LM = "QtLogger::LogMessage"
 
 def run(ck):
     F = ck.facts
+    from rules.c19 import share_ini_obligation
+    share_ini_obligation(ck, "C15-O8", "ini|text|filter_rules", "configure(settings): the value of filter_rules is the rule list the CategoryFilter is built from, character for character (a ':' belongs to a category name)")
     ck.rule("C15-O1", "category text of a rule: captured -> QRegularExpression::escape -> replace('\\\\*', '.*') -> '^' + text + '$', in this order and nothing else")
     ck.rule("C15-O2", "filter(): verdict starts true; every rule is visited in list order with no break/return; a matching rule overwrites the verdict with its own; the verdict is returned")
     ck.rule("C15-O3", "Rule::matches == regex.match(category).hasMatch() && (!typeMatch || type == messageType) on all 8 truth-table rows; filter passes (category, type)")
